@@ -332,6 +332,17 @@ def _iter(I, args, kwargs):
     return SList(I.iterate(args[0]))
 
 
+import itertools as _itertools
+
+
+@model(_itertools.chain, "itertools.chain(*iterables) of known-length iterables")
+def _chain(I, args, kwargs):
+    out = []
+    for a in args:
+        out.extend(I.iterate(a))
+    return SList(out)
+
+
 @model(builtins.getattr, "getattr(obj, name[, default])")
 def _getattr(I, args, kwargs):
     from .symexec import PyRaise
